@@ -125,7 +125,13 @@ func (am *YAMLAccountManager) Update(account hotline.Account, newLogin string) e
 		return err
 	}
 
-	if err := os.WriteFile(filepath.Join(am.accountDir, newLogin+".yaml"), out, 0644); err != nil {
+	// Write to a temporary file and rename it over the account file so a crash never leaves a truncated account.
+	// The temporary name does not end in .yaml, so it is ignored when accounts are loaded.
+	accountFilePath := filepath.Join(am.accountDir, newLogin+".yaml")
+	if err := os.WriteFile(accountFilePath+".tmp", out, 0644); err != nil {
+		return fmt.Errorf("error writing account file: %w", err)
+	}
+	if err := os.Rename(accountFilePath+".tmp", accountFilePath); err != nil {
 		return fmt.Errorf("error writing account file: %w", err)
 	}
 
